@@ -149,6 +149,11 @@ def plan(prop, tier):
                 scen.with_bounds({"nodes": [{"id": 1, "kind": "merge", "ups": []}], "root": 1}, "merge", **eb),
                 scen.with_bounds({"nodes": [{"id": 1, "kind": "concat", "ups": []}], "root": 1}, "concat", **eb)]
         fams.append(("edge", edge, None))
+        if prop == "C01":
+            # sinks of a shared source that make each other attach / pull / detach from inside their handlers
+            # (for C02-C04 this family only adds further variants of finding F2: snapshot fan-out)
+            fams.append(("share2_cross", scen.with_bounds(scen.share_g(), "share", sinks=["probe", "probe"], maxData=1,
+                                                         maxTop=4, maxPull=1, allowFail=False, burst=False, cross=True), None))
         if prop in ("C04", "C17"):
             # for_each as a sink of the crate, directly on a puppet source (no tap in between)
             for mode in ("any", "pull"):
